@@ -788,6 +788,12 @@ func (r *run) feed(n *Node, b *block.Block) {
 	if r.fail != nil {
 		return
 	}
+	if r.prop == "C05" {
+		if v := r.transferLogOfBlock(n, b.Index); v != nil {
+			r.violate(v)
+			return
+		}
+	}
 	flushed := false
 	switch l.FlushMode {
 	case 1:
